@@ -341,15 +341,30 @@ impl Inv
         Some(v)
     }
 
+    /* "naming the ... ungenerated target": when a rule's script leaves several declared targets
+       ungenerated any of THOSE may be named; a path that the script does generate, or another
+       rule's, may not */
+    pub fn ungenerated_class(&self, t : &str) -> String
+    {
+        for (i, r) in self.rules.iter().enumerate()
+        {
+            if r.targets.iter().any(|x| x == t)
+            {
+                let generated = r.lines.iter().any(|l| match l { super::scen::Line::Emit{ target, .. } => target == t, _ => false });
+                if !generated { return format!("<an ungenerated target of rule {}>", i); }
+            }
+        }
+        t.to_string()
+    }
+
     /* both error lists with ungenerated targets named by rule (see oracle_c04) */
     pub fn errors_as_predicted(&self) -> bool
     {
-        let owner = model::target_owner(&self.rules).unwrap_or(BTreeMap::new());
         let norm = |v : Vec<ErrClass>| -> Vec<ErrClass>
         {
             let mut v : Vec<ErrClass> = v.into_iter().map(|e| match e
             {
-                ErrClass::TargetNotGenerated(t) => ErrClass::TargetNotGenerated(match owner.get(&t) { Some(i) => format!("<a target of rule {}>", i), None => t }),
+                ErrClass::TargetNotGenerated(t) => ErrClass::TargetNotGenerated(self.ungenerated_class(&t)),
                 other => other,
             }).collect();
             v.sort();
@@ -784,10 +799,9 @@ pub fn oracle_c04(inv : &Inv, failed_last : &[Identity]) -> Vec<Violation>
     {
         // "naming the ... ungenerated target": when a rule leaves several targets ungenerated any
         // of them may be named; compare by rule
-        let owner = model::target_owner(&inv.rules).unwrap_or(BTreeMap::new());
         let mut v : Vec<ErrClass> = v.into_iter().map(|e| match e
         {
-            ErrClass::TargetNotGenerated(t) => ErrClass::TargetNotGenerated(match owner.get(&t) { Some(i) => format!("<a target of rule {}>", i), None => t }),
+            ErrClass::TargetNotGenerated(t) => ErrClass::TargetNotGenerated(inv.ungenerated_class(&t)),
             other => other,
         }).collect();
         v.sort();
